@@ -1,4 +1,364 @@
-import SimVerif.Lemmas.Tracker
+import SimVerif.Props.C02
+import SimVerif.Props.C17
+import Mathlib.Data.List.Nodup
+/-!
+# C12 — VisualSORT: appearance votes first, positional fallback, truthful voting type
+
+Model: `SimVerif.Tracker.{visualDecided, positionalRest, validVisualChoice, predictSceneV}` over the
+best-fit voting of `SimVerif.Voting` — `src/trackers/visual_sort/{simple_api,batch_api,voting}.rs`.
+Every theorem is for every distance table (positional weights and feature distances), every state.
+-/
 namespace SimVerif.C12
-theorem C12_placeholder : True := trivial
+open SimVerif.Tracker SimVerif.Voting List
+
+deriving instance ReflBEq, LawfulBEq for Pick
+
+/-- the appearance stage's decision for detection `i`, if it has one -/
+def decisionOf (cfg : Cfg) (table : List VEntry) (i : Nat) : Option (Nat × Option Nat) :=
+  (visualDecided cfg table).find? (fun d => d.1 == i)
+
+/-- the picks as the positional stage sees them: decided detections are out of the game -/
+def masked (cfg : Cfg) (table : List VEntry) (n : Nat) (picks : List Pick) : List Pick :=
+  ((List.range n).zip picks).map (fun (i, p) => if (visualDecided cfg table).any (fun d => d.1 == i) then .fresh 0 else p)
+
+theorem mem_zip_range {α : Type} (l : List α) (n : Nat) (hn : l.length = n) (i : Nat) (a : α) (h : l[i]? = some a) :
+    (i, a) ∈ (List.range n).zip l := by
+  have hi : i < l.length := by
+    by_contra hc
+    rw [List.getElem?_eq_none (by omega)] at h
+    cases h
+  rw [List.mem_iff_getElem]
+  refine ⟨i, by simp; omega, ?_⟩
+  rw [List.getElem?_eq_getElem hi] at h
+  simp only [Option.some.injEq] at h
+  simp [List.getElem_zip, h]
+
+theorem valid_parts (cfg : Cfg) (st : St) (scene e n : Nat) (table : List VEntry) (picks : List Pick)
+    (h : validVisualChoice cfg st scene e n table picks = true) :
+    picks.length = n ∧
+    (∀ i p, picks[i]? = some p →
+      match decisionOf cfg table i with
+      | some (_, some tid) => p = .cont tid true
+      | some (_, none) => ∃ id, p = .fresh id
+      | none => ∀ tid vis, p = .cont tid vis → vis = false) ∧
+    validChoice cfg st scene e n (positionalRest (visualDecided cfg table) table) (masked cfg table n picks) = true := by
+  unfold validVisualChoice at h
+  simp only [Bool.and_eq_true] at h
+  obtain ⟨⟨⟨hlen, _⟩, hall⟩, hpos⟩ := h
+  have hlen' : picks.length = n := by simpa using hlen
+  refine ⟨hlen', ?_, hpos⟩
+  intro i p hp
+  have hmem := mem_zip_range picks n hlen' i p hp
+  rw [List.all_eq_true] at hall
+  have := hall _ hmem
+  unfold decisionOf
+  simp only at this
+  split at this
+  · rename_i hd; rw [hd]; simpa using this
+  · rename_i hd; rw [hd]
+    simp only
+    cases p with
+    | cont a b => simp at this
+    | fresh id => exact ⟨id, rfl⟩
+  · rename_i hd; rw [hd]
+    simp only
+    intro tid vis hpv
+    subst hpv
+    simpa using this
+
+/-- **Truthful voting type and the lost contest.** In a valid VisualSORT choice: a detection the
+appearance stage awarded track `tid` is attached to exactly that track with voting type *Visual*;
+a detection whose heaviest appearance claim lost the contest is attached to no existing track — it
+starts a new one; every other attachment is reported *Positional*. Hence `Visual` is reported iff
+the appearance stage awarded the track. -/
+theorem C12_truthful (cfg : Cfg) (st : St) (scene e n : Nat) (table : List VEntry) (picks : List Pick)
+    (h : validVisualChoice cfg st scene e n table picks = true) (i : Nat) (p : Pick) (hp : picks[i]? = some p) :
+    (∀ j tid, decisionOf cfg table i = some (j, some tid) → p = .cont tid true) ∧
+    (∀ j, decisionOf cfg table i = some (j, none) → ∃ id, p = .fresh id) ∧
+    (∀ tid, p = .cont tid true ↔ ∃ j, decisionOf cfg table i = some (j, some tid)) := by
+  have hv := (valid_parts cfg st scene e n table picks h).2.1 i p hp
+  refine ⟨?_, ?_, ?_⟩
+  · intro j tid hd; rw [hd] at hv; exact hv
+  · intro j hd; rw [hd] at hv; exact hv
+  · intro tid
+    constructor
+    · intro hpt
+      cases hd : decisionOf cfg table i with
+      | none => rw [hd] at hv; have := hv tid true hpt; cases this
+      | some d =>
+        obtain ⟨j, o⟩ := d
+        cases o with
+        | none => rw [hd] at hv; obtain ⟨id, hid⟩ := hv; rw [hpt] at hid; cases hid
+        | some t =>
+          rw [hd] at hv
+          rw [hpt] at hv
+          injection hv with h1 _
+          exact ⟨j, by rw [h1]⟩
+    · rintro ⟨j, hd⟩; rw [hd] at hv; exact hv
+
+/-- the record of a pick reports visual voting iff the pick is a visual continuation -/
+theorem C12_record (cfg : Cfg) (scene e : Nat) (st st' : St) (d : Det) (p : Pick) (r : Rec)
+    (h : applyPick cfg scene e st d p = some (st', r)) :
+    r.visual = true ↔ ∃ tid, p = .cont tid true := by
+  cases p with
+  | cont tid vis =>
+    obtain ⟨t, _, _, _, _, hvis⟩ := (applyPick_spec cfg scene e st st' d _ r h).2.2.2.2.2.2.2.2.2.1 tid vis rfl
+    rw [hvis]
+    constructor
+    · intro hv; exact ⟨tid, by rw [hv]⟩
+    · rintro ⟨tid', ht⟩; injection ht
+  | fresh id =>
+    unfold applyPick at h
+    simp only [Option.some.injEq, Prod.mk.injEq] at h
+    obtain ⟨_, h2⟩ := h
+    subst h2
+    constructor
+    · intro hv; cases hv
+    · rintro ⟨tid', ht⟩; cases ht
+
+theorem find_none_any {α : Type} (l : List α) (p : α → Bool) : l.find? p = none ↔ l.any p = false := by
+  rw [find?_eq_none]
+  constructor
+  · intro h
+    rw [Bool.eq_false_iff]
+    intro ha
+    obtain ⟨x, hx, hpx⟩ := any_eq_true.mp ha
+    exact h x hx hpx
+  · intro h x hx hpx
+    have : l.any p = true := any_eq_true.mpr ⟨x, hx, hpx⟩
+    rw [h] at this; cases this
+
+theorem mem_positionalRest (decided : List (Nat × Option Nat)) (table : List VEntry) (x : Tracker.Entry)
+    (h : x ∈ positionalRest decided table) :
+    ∃ y ∈ table, y.det = x.det ∧ y.tid = x.tid ∧ y.w = some x.w ∧
+      decided.any (fun p => p.1 == x.det) = false ∧ x.tid ∉ decided.filterMap (·.2) := by
+  unfold positionalRest at h
+  obtain ⟨y, hy, hf⟩ := mem_filterMap.mp h
+  split at hf
+  · cases hf
+  · rename_i hc
+    cases hw : y.w with
+    | none => rw [hw] at hf; cases hf
+    | some w =>
+      rw [hw] at hf
+      simp only [Option.map_some, Option.some.injEq] at hf
+      subst hf
+      simp only [Bool.or_eq_true, not_or, Bool.not_eq_true] at hc
+      refine ⟨y, hy, rfl, rfl, hw, hc.1, ?_⟩
+      have := hc.2
+      intro hm
+      rw [← contains_iff_mem] at hm
+      rw [hm] at this; cases this
+
+/-- **Positional fallback.** A detection the appearance stage did not decide is attached to an
+existing track only through a table entry of that very pair that carries a positional weight
+reaching the threshold, whose track the appearance stage did not award; the positional choice is
+one-to-one and attains the maximum total weight over exactly the remaining distances. -/
+theorem C12_positional (cfg : Cfg) (st : St) (scene e n : Nat) (table : List VEntry) (picks : List Pick)
+    (h : validVisualChoice cfg st scene e n table picks = true) :
+    (∀ i tid vis, picks[i]? = some (.cont tid vis) → decisionOf cfg table i = none →
+        ∃ y ∈ table, y.det = i ∧ y.tid = tid ∧ (∃ w, y.w = some w ∧ cfg.thr ≤ w) ∧
+          tid ∉ (visualDecided cfg table).filterMap (·.2)) ∧
+    (((masked cfg table n picks).map contOf).filterMap id).Nodup ∧
+    (let es : List AssignX.Entry := (positionalRest (visualDecided cfg table) table).map (fun x => { q := x.det + 1, t := x.tid, w := x.w })
+     AssignX.objective es cfg.thr (AssignX.queries es)
+        ((AssignX.queries es).map (fun q => ((masked cfg table n picks).map contOf).getD (q - 1) none))
+       = AssignX.bestOf es cfg.thr) := by
+  obtain ⟨hlen, _, hpos⟩ := valid_parts cfg st scene e n table picks h
+  obtain ⟨hnd, hgate, hopt⟩ := C02.C02_tracker cfg st scene e n _ _ hpos
+  refine ⟨?_, hnd, hopt⟩
+  intro i tid vis hp hdec
+  have hany : (visualDecided cfg table).any (fun d => d.1 == i) = false := (find_none_any _ _).mp hdec
+  have hi : i < picks.length := by
+    by_contra hc
+    rw [List.getElem?_eq_none (by omega)] at hp
+    cases hp
+  have hm : ((masked cfg table n picks).map contOf)[i]? = some (some tid) := by
+    unfold masked
+    have hz : ((List.range n).zip picks)[i]? = some (i, .cont tid vis) :=
+      List.getElem?_zip_eq_some.mpr ⟨List.getElem?_range (by omega), hp⟩
+    rw [List.getElem?_map, List.getElem?_map, hz]
+    simp [hany, contOf]
+  obtain ⟨x, hx, hxd, hxt, hxw⟩ := hgate i tid hm
+  obtain ⟨y, hy, hyd, hyt, hyw, _, hex⟩ := mem_positionalRest _ _ x hx
+  exact ⟨y, hy, by rw [hyd, hxd], by rw [hyt, hxt], ⟨x.w, hyw, hxw⟩, by rw [← hxt]; exact hex⟩
+
+/-- **No claim, no pair ⇒ a new track**: a detection without an appearance decision and without a
+gated positional pair in the table starts a new track. -/
+theorem C12_new (cfg : Cfg) (st : St) (scene e n : Nat) (table : List VEntry) (picks : List Pick)
+    (h : validVisualChoice cfg st scene e n table picks = true) (i : Nat) (p : Pick) (hp : picks[i]? = some p)
+    (hdec : decisionOf cfg table i = none)
+    (hno : ∀ y ∈ table, y.det = i → ∀ w, y.w = some w → w < cfg.thr) : ∃ id, p = .fresh id := by
+  cases p with
+  | fresh id => exact ⟨id, rfl⟩
+  | cont tid vis =>
+    obtain ⟨y, hy, hyd, _, ⟨w, hw, hthr⟩, _⟩ := (C12_positional cfg st scene e n table picks h).1 i tid vis hp hdec
+    have := hno y hy hyd w hw
+    omega
+
+/-- **One winner per track in the appearance stage**: the tracks awarded by appearance are pairwise
+distinct (the heaviest claimant gets the track — `C17_bestfit_rule` — every later one loses). -/
+theorem C12_one_winner (cfg : Cfg) (table : List VEntry) :
+    ((visualDecided cfg table).filterMap (·.2)).Nodup := by
+  unfold visualDecided
+  simp only [filterMap_map]
+  apply Nodup.filterMap _ (firsts_nodup _)
+  intro q q' w hq hq'
+  have hnd := (C17.C17_bestfit_one_winner (maxD := Nms.F32_MAX) (mv := cfg.minVotes) (featStream table)).1
+  have key : ∀ q, w ∈ (decideOne (bestfitAll Nms.F32_MAX cfg.minVotes (featStream table)) q).2 →
+      ∃ e, (e, true) ∈ bestfitAll Nms.F32_MAX cfg.minVotes (featStream table) ∧ e.q = q ∧ e.w = w := by
+    intro q hq
+    unfold decideOne at hq
+    split at hq
+    · rename_i e real hf
+      cases real with
+      | false => simp at hq
+      | true =>
+        simp only [if_true, Option.mem_def, Option.some.injEq] at hq
+        have h1 := find?_some hf
+        simp only [beq_iff_eq] at h1
+        exact ⟨e, mem_of_find?_eq_some hf, h1, hq⟩
+    · simp at hq
+  obtain ⟨e, he, heq, hew⟩ := key q (by simpa [Function.comp] using hq)
+  obtain ⟨e', he', heq', hew'⟩ := key q' (by simpa [Function.comp] using hq')
+  have h1 : (e, true) ∈ (bestfitAll Nms.F32_MAX cfg.minVotes (featStream table)).filter (·.2) := mem_filter.mpr ⟨he, rfl⟩
+  have h2 : (e', true) ∈ (bestfitAll Nms.F32_MAX cfg.minVotes (featStream table)).filter (·.2) := mem_filter.mpr ⟨he', rfl⟩
+  have := inj_on_of_nodup_map hnd h1 h2 (by simp [hew, hew'])
+  injection this with h3 _
+  rw [← heq, ← heq', h3]
+
+theorem filterMap_nodup_inj {α β : Type} (f : α → Option β) (l : List α) (h : (l.filterMap f).Nodup)
+    (a b : α) (c : β) (ha : a ∈ l) (hb : b ∈ l) (hfa : f a = some c) (hfb : f b = some c) : a = b := by
+  induction l with
+  | nil => cases ha
+  | cons x xs ih =>
+    rw [filterMap_cons] at h
+    rcases mem_cons.mp ha with rfl | ha' <;> rcases mem_cons.mp hb with hbx | hb'
+    · exact hbx.symm
+    · rw [hfa] at h
+      have := (nodup_cons.mp h).1
+      exact absurd (mem_filterMap.mpr ⟨b, hb', hfb⟩) this
+    · subst hbx
+      rw [hfb] at h
+      have := (nodup_cons.mp h).1
+      exact absurd (mem_filterMap.mpr ⟨a, ha', hfa⟩) this
+    · cases hx : f x with
+      | none => rw [hx] at h; exact ih h ha' hb'
+      | some y => rw [hx] at h; exact ih (nodup_cons.mp h).2 ha' hb'
+
+theorem getElem_nodup_inj {α : Type} (l : List (Option α)) (h : (l.filterMap id).Nodup) (i j : Nat) (a : α)
+    (hi : l[i]? = some (some a)) (hj : l[j]? = some (some a)) : i = j := by
+  induction l generalizing i j with
+  | nil => simp at hi
+  | cons x xs ih =>
+    rw [filterMap_cons] at h
+    cases i with
+    | zero =>
+      cases j with
+      | zero => rfl
+      | succ j =>
+        simp only [getElem?_cons_zero, Option.some.injEq] at hi
+        simp only [getElem?_cons_succ] at hj
+        subst hi
+        simp only [id] at h
+        have := (nodup_cons.mp h).1
+        have hm : a ∈ filterMap (fun x => x) xs := mem_filterMap.mpr ⟨some a, mem_of_getElem? hj, rfl⟩
+        exact absurd hm this
+    | succ i =>
+      cases j with
+      | zero =>
+        simp only [getElem?_cons_zero, Option.some.injEq] at hj
+        simp only [getElem?_cons_succ] at hi
+        subst hj
+        simp only [id] at h
+        have := (nodup_cons.mp h).1
+        have hm : a ∈ filterMap (fun x => x) xs := mem_filterMap.mpr ⟨some a, mem_of_getElem? hi, rfl⟩
+        exact absurd hm this
+      | succ j =>
+        simp only [getElem?_cons_succ] at hi hj
+        have hxs : (xs.filterMap id).Nodup := by
+          cases x with
+          | none => simpa using h
+          | some y => simp only [id] at h; exact (nodup_cons.mp h).2
+        rw [ih hxs i j hi hj]
+
+theorem decision_mem (cfg : Cfg) (table : List VEntry) (i j : Nat) (o : Option Nat)
+    (h : decisionOf cfg table i = some (j, o)) : (i, o) ∈ visualDecided cfg table := by
+  unfold decisionOf at h
+  have h1 := find?_some h
+  simp only [beq_iff_eq] at h1
+  subst h1
+  exact mem_of_find?_eq_some h
+
+/-- **Both stages together: no track is attached to two detections of one call** — whether by two
+appearance awards, by an award and a positional match, or by two positional matches. -/
+theorem C12_one_to_one (cfg : Cfg) (st : St) (scene e n : Nat) (table : List VEntry) (picks : List Pick)
+    (h : validVisualChoice cfg st scene e n table picks = true) (i j tid : Nat) (v1 v2 : Bool)
+    (hi : picks[i]? = some (.cont tid v1)) (hj : picks[j]? = some (.cont tid v2)) : i = j := by
+  obtain ⟨hlen, hdec, hpos⟩ := valid_parts cfg st scene e n table picks h
+  have hP := C12_positional cfg st scene e n table picks h
+  have hW := C12_one_winner cfg table
+  have hdi := hdec i _ hi
+  have hdj := hdec j _ hj
+  -- what a decision means for a `cont` pick
+  have award : ∀ k v, picks[k]? = some (.cont tid v) → ∀ d, decisionOf cfg table k = some d →
+      (k, some tid) ∈ visualDecided cfg table := by
+    intro k v hk d hd
+    have hdk := hdec k _ hk
+    obtain ⟨j', o⟩ := d
+    rw [hd] at hdk
+    cases o with
+    | none => obtain ⟨id, hid⟩ := hdk; cases hid
+    | some t =>
+      simp only at hdk
+      injection hdk with h1 _
+      subst h1
+      exact decision_mem cfg table k j' _ hd
+  have maskedAt : ∀ k v, picks[k]? = some (.cont tid v) → decisionOf cfg table k = none →
+      ((masked cfg table n picks).map contOf)[k]? = some (some tid) := by
+    intro k v hk hd
+    have hany : (visualDecided cfg table).any (fun d => d.1 == k) = false := (find_none_any _ _).mp hd
+    have hk' : k < picks.length := by
+      by_contra hc
+      rw [List.getElem?_eq_none (by omega)] at hk
+      cases hk
+    unfold masked
+    have hz : ((List.range n).zip picks)[k]? = some (k, .cont tid v) :=
+      List.getElem?_zip_eq_some.mpr ⟨List.getElem?_range (by omega), hk⟩
+    rw [List.getElem?_map, List.getElem?_map, hz]
+    simp [hany, contOf]
+  cases hci : decisionOf cfg table i with
+  | none =>
+    cases hcj : decisionOf cfg table j with
+    | none => exact getElem_nodup_inj _ hP.2.1 i j tid (maskedAt i v1 hi hci) (maskedAt j v2 hj hcj)
+    | some dj =>
+      have := award j v2 hj dj hcj
+      obtain ⟨_, _, _, _, _, hex⟩ := hP.1 i tid v1 hi hci
+      have hm : tid ∈ filterMap (fun x => x.2) (visualDecided cfg table) := mem_filterMap.mpr ⟨(j, some tid), this, rfl⟩
+      exact absurd hm hex
+  | some di =>
+    have hai := award i v1 hi di hci
+    cases hcj : decisionOf cfg table j with
+    | none =>
+      obtain ⟨_, _, _, _, _, hex⟩ := hP.1 j tid v2 hj hcj
+      have hm : tid ∈ filterMap (fun x => x.2) (visualDecided cfg table) := mem_filterMap.mpr ⟨(i, some tid), hai, rfl⟩
+      exact absurd hm hex
+    | some dj =>
+      have haj := award j v2 hj dj hcj
+      have := filterMap_nodup_inj (·.2) _ hW (i, some tid) (j, some tid) tid hai haj rfl rfl
+      injection this
+
+/-! ### non-vacuity: two detections claim track 7 by appearance; the heavier claim wins, the loser is
+decided "new track" and is not offered to the positional stage -/
+def exCfg : Cfg := { maxIdle := 5, histLen := 3, batchIds := false, thr := 300000, visual := true, maxObs := 3, minVotes := 1 }
+def exTable : List VEntry := [⟨0, 7, some 500000, some (1/10)⟩, ⟨1, 7, some 900000, some (3/10)⟩, ⟨2, 8, some 400000, none⟩]
+
+example : visualDecided exCfg exTable = [(0, some 7), (1, none)] ∧
+    positionalRest [(0, some 7), (1, none)] exTable = [⟨2, 8, 400000⟩] := by
+  constructor
+  · unfold visualDecided bestfitAll
+    rw [mergeSort_of_pairwise (by decide +kernel)]
+    decide +kernel
+  · decide +kernel
+
 end SimVerif.C12
